@@ -45,7 +45,8 @@ loops, scf.while as context) with shapes aimed at what the pass rewrites (read f
     threaded through, plus near misses;
   * licm: scf.for (nested, zero-trip) whose bodies hold loop-invariant arithmetic (incl. division by loop-invariant
     divisors), loop-variant arithmetic, effects, and load/modify/store of memory at loop-invariant addresses;
-  * control-flow-hoist: scf.if / affine.if with pure, effectful and trapping contents;
+  * control-flow-hoist: scf.if / affine.if with pure, effectful and trapping contents, in particular branches that
+    guard a division by `x != 0` with x = 0 on many inputs;
   * convert-scf-to-cf: scf.if / scf.for / scf.index_switch, nested, also inside cf CFG blocks;
   * lower-affine: affine.for / apply / load / store (/ affine.if as context);
   * frontend-desymrefy: symref.declare/fetch/update, straight-line and in nested regions.
@@ -885,17 +886,65 @@ def licm_programs(pname="licm"):
     return _with_types(mk)
 
 
+# ---- control-flow-hoist: branches guarding a division, pure and effectful contents --------------------
+
+def hoist_programs(pname="control-flow-hoist"):
+    def mk(t, vt, lv):
+        T = t       # an integer type of width >= 8
+        # mostly the division ops that are correctly conditionally speculatable; the always-speculatable ones are
+        # the known defect F-C16-10 (small quota)
+        divs = ["divsi", "divui", "remui", "ceildivui"] * 3 + ["remsi", "floordivsi", "ceildivsi"]
+
+        def shape(mask, far, dop, da, eq, extra_then, extra_else, eff, res2):
+            # x = older & mask  (0 for many inputs);  guard = x != 0 (or x == 0 with the branches swapped)
+            pre = [{"op": "const", "t": T, "v": mask}, {"op": "andi", "t": T, "a": 0, "b": far},
+                   {"op": "const", "t": T, "v": 0},
+                   {"op": "cmpi", "t": T, "p": 0 if eq else 1, "a": 1, "b": 0}]
+            div = [{"op": dop, "t": T, "a": da, "b": 1, "safe": 0}]     # divisor = x (same ref as in the guard)
+            guarded = div + extra_then + eff
+            other = list(extra_else)
+            if_ = {"op": "if", "c": 0, "res": [T] + res2, "then": other if eq else guarded, "ty": [0, 0],
+                   "else": guarded if eq else other, "ey": [0, 0]}
+            return pre + [if_, {"op": "print", "k": 1, "args": [[T, 0]]}]
+        pure = st.lists(lv[0], max_size=2)
+        eff = st.sampled_from([[], [], [], [{"op": "print", "k": 2, "args": [[T, 0]]}]])
+        one = st.builds(shape, st.sampled_from([1, 1, 3]), st.integers(1, 4), st.sampled_from(divs), st.integers(0, 4),
+                        st.booleans(), pure, pure, eff, st.sampled_from([[], [], [T]]))
+        body = _cat(st.lists(lv[0], max_size=3), one, st.one_of(st.just([]), one), st.lists(lv[0], max_size=2))
+        return _func_recipes(body, vt, pname)
+    cache: dict = {}
+
+    def sub(tv):
+        t, vts = tv
+        ints = sorted({x for x in vts + [t, "i1"] if not x.startswith("f")})
+        key = (t, tuple(ints))
+        if key not in cache:
+            # pure statements only (an effect inside the branch legitimately blocks the hoist)
+            lv = progen._stmt_levels(progen.features(int_types=ints, float_types=[], max_depth=1, effects=[],
+                                                     control=["scf_if"]))
+            cache[key] = mk(t, ints, lv)
+        return cache[key]
+    return st.tuples(st.sampled_from(["i32", "i64", "index", "i8"]),
+                     st.lists(st.sampled_from(["i32", "i64", "i8"]), min_size=1, max_size=1)).flatmap(sub)
+
+
 # ---- frontend-desymrefy: symref variables, straight-line and in nested regions -------------------
 
 def symref_programs(nested: bool, pname="frontend-desymrefy"):
-    vt = ["i32", "i64", "f64", "i1"]
-    F = progen.features(int_types=["i1", "i32", "i64"], float_types=["f64"], ops=["int_arith", "cmp", "float_arith",
-                                                                                 "select"],
+    """Programs over one main value type (+ i1) so that the values written to the variables differ."""
+    return st.sampled_from(["i32", "i64", "f64", "i32"]).flatmap(lambda t: _symref_programs(t, nested, pname))
+
+
+def _symref_programs(main_t: str, nested: bool, pname: str):
+    vt = [main_t, main_t, main_t, "i1"]
+    F = progen.features(int_types=["i1"] + ([main_t] if main_t[0] == "i" else []),
+                        float_types=[main_t] if main_t[0] == "f" else [],
+                        ops=["int_arith", "cmp", "float_arith", "float_cmp", "select"],
                         effects=["print"], control=[], symref=False, dup=False, index_bits=64)
     base = progen._stmt_levels(F)[0]
     decl = st.builds(lambda t, v: [{"op": "sym_decl", "t": t, "v": v}], st.sampled_from(vt), _REF)
     # every fetched value is made observable: the newest value of each type is printed right after the fetch
-    showall = {"op": "print", "k": 3, "args": [[t, 0] for t in vt]}
+    showall = {"op": "print", "k": 3, "args": [[t, 0] for t in (main_t, "i1")]}
     fetch = st.builds(lambda k: [{"op": "sym_fetch", "k": k}, showall], st.integers(0, 3))
     upd = st.builds(lambda k, v: [{"op": "sym_update", "k": k, "v": v}], st.integers(0, 3), _REF)
     one = base.map(lambda x: [x])
@@ -913,14 +962,15 @@ def symref_programs(nested: bool, pname="frontend-desymrefy"):
                                                        "ey": ey}], _REF, res, inner, refs, inner, refs)
         for_ = st.builds(lambda *a: [_for(*a)], st.just("index"), bnd, bnd, bnd, _iters(vt, 1), inner, refs)
         return st.one_of(if_, for_).map(progen._ident)
-    l0 = st.lists(leaf, min_size=1, max_size=5).map(flat)
+    l0 = st.lists(leaf, min_size=2, max_size=6).map(flat)
     if nested:
-        l1 = _cat(st.lists(leaf, max_size=3).map(flat), st.lists(regions(l0), max_size=1).map(flat),
-                  st.lists(leaf, max_size=2).map(flat))
-        top = _cat(st.lists(leaf, max_size=3).map(flat), st.lists(regions(l1), min_size=1, max_size=2).map(flat),
-                   st.lists(leaf, max_size=3).map(flat))
+        l1 = _cat(st.lists(leaf, min_size=1, max_size=4).map(flat), st.lists(regions(l0), max_size=1).map(flat),
+                  st.lists(leaf, max_size=3).map(flat))
+        top = _cat(st.lists(leaf, min_size=1, max_size=4).map(flat),
+                   st.lists(regions(l1), min_size=1, max_size=2).map(flat),
+                   st.lists(leaf, min_size=1, max_size=4).map(flat))
     else:
-        top = st.lists(leaf, max_size=10).map(flat)
+        top = st.lists(leaf, min_size=4, max_size=14).map(flat)
     body = _cat(st.lists(decl, min_size=1, max_size=2).map(flat), top, st.lists(fetch, max_size=2).map(flat))
     return _func_recipes(body, vt, pname)
 
@@ -949,6 +999,7 @@ def campaigns():
                                        affine=True, size=9), 2))
     out.append(("hoist:effects", _generic("control-flow-hoist", control=["scf_if", "scf_for", "scf_while"],
                                           affine=True, size=9), 2))
+    out.append(("hoist:guarded_div", hoist_programs(), 3))
     out.append(("symref:straight", symref_programs(False), 3))
     out.append(("symref:nested", symref_programs(True), 3))
     return out
